@@ -282,6 +282,57 @@ def callback_iterates_copy():
     return 'bool', cbool(ok)
 
 
+def _body(f):
+    return [s for s in f.body if not (isinstance(s, ast.Expr) and isinstance(s.value, ast.Constant))]
+
+
+def register_appends_in_place():
+    """ProxyClient.register_callback: the loop over the keyword callbacks ends with
+    `if do_append: self.callbacks[cbname][key].append(cbfunc)` -- an append on the list object stored in the dict; the
+    function stores nothing into a subscript (no `cbdict[key] = ...`), and unregister_callback removes from the stored
+    object and pops an empty list"""
+    pc = find_class(parse(CLIENT), 'ProxyClient')
+    f = find_func(pc, 'register_callback')
+    loops = [n for n in _body(f) if isinstance(n, ast.For)]
+    if len(loops) != 2:
+        raise Shape('register_callback: expected two top level for loops')
+    last = loops[1].body[-1]
+    ok = isinstance(last, ast.If) and _nospace(last.test) == 'do_append' and not last.orelse \
+        and [_nospace(x) for x in last.body] == ['self.callbacks[cbname][key].append(cbfunc)']
+    for n in ast.walk(f):
+        targets = n.targets if isinstance(n, ast.Assign) else [n.target] if isinstance(n, (ast.AugAssign, ast.AnnAssign)) else []
+        for t in targets:
+            for sub in ast.walk(t):
+                if isinstance(sub, ast.Subscript) and not (isinstance(n, ast.Assign) and _nospace(t) == 'kwds[cbfunc.__name__]'):
+                    ok = False
+        if isinstance(n, ast.Call) and isinstance(n.func, ast.Attribute) and n.func.attr in (
+                'update', 'setdefault', 'pop', 'clear', 'insert', 'extend', 'copy', '__setitem__'):
+            ok = False
+    u = find_func(pc, 'unregister_callback')
+    loops = [n for n in _body(u) if isinstance(n, ast.For)]
+    if len(loops) != 2:
+        raise Shape('unregister_callback: expected two top level for loops')
+    st = [_nospace(x) for x in loops[1].body]
+    ok = ok and st == ['cblist=self.callbacks[cbname][key]', 'iffuncincblist:cblist.remove(func)',
+                       'ifnotcblist:self.callbacks[cbname].pop(key)']
+    return 'bool', cbool(ok)
+
+
+def dispatch_removes_from_fetched_list():
+    """ProxyClient.callback: `cblist = self.callbacks[cbname].get(key, [])` is the first statement and the only
+    assignment to cblist: the list iterated (as a copy) and the list `cblist.remove(cbfunc)` works on are the object
+    stored in the dict at the start of the dispatch; the function ends with `return bool(cblist)`"""
+    f = find_func(find_class(parse(CLIENT), 'ProxyClient'), 'callback')
+    body = _body(f)
+    ok = len(body) == 3 and _nospace(body[0]) == 'cblist=self.callbacks[cbname].get(key,[])' \
+        and isinstance(body[1], ast.For) and _nospace(body[2]) == 'returnbool(cblist)'
+    n_assign = 0
+    for n in ast.walk(f):
+        if isinstance(n, ast.Name) and n.id == 'cblist' and isinstance(n.ctx, (ast.Store, ast.Del)):
+            n_assign += 1
+    return 'bool', cbool(ok and n_assign == 1)
+
+
 def internalize_shape():
     """internalize_name strips one leading underscore unless the rest is a predefined name"""
     f = find_func(find_class(parse(CLIENT), 'SecopClient'), 'internalize_name')
@@ -305,7 +356,7 @@ def array_validate_pads_previous():
 FACTS = [array_validate_pads_previous, predefined_names, error_classes, error_names, error_default_is_InternalError, update_messages_ok,
          timestamp_clamped_before_update, reply_update_precedes_release, reply_error_not_stored_again,
          shorthand_lookup_shape, update_value_order, callback_iterates_copy,
-         internalize_shape]
+         register_appends_in_place, dispatch_removes_from_fetched_list, internalize_shape]
 
 _cl = lambda: find_class(parse(CLIENT), 'SecopClient')
 _pc = lambda: find_class(parse(CLIENT), 'ProxyClient')
